@@ -178,9 +178,11 @@ func main() {
 	emitAll := flag.Bool("emit", false, "emit tape and trace for every run")
 	deadline := flag.Duration("deadline", 0, "stop starting new runs after this wall time")
 	digest := flag.Bool("digest", false, "print one DIGEST line per run instead of JSON (determinism self-test)")
+	cold := flag.Bool("cold", false, "c14: the first run of the process is a cold run (burst before anything else touches the library)")
 	emitFirst := flag.Uint64("emitfirst", 0, "emit tape and trace for the first N runs (samples for the evidence file)")
 	flag.Parse()
 
+	coldFirst = *cold
 	eng := engines[*engName]
 	if eng == nil {
 		fmt.Fprintln(os.Stderr, "unknown engine", *engName)
